@@ -3,9 +3,15 @@
   `writeCoalescer.writeContext / writeFlusherImpl / flush`, and the caller's reaction in `Conn.exec`
   (n == 0 ∧ ctx error → release; otherwise closeWithError).
 
-  Writes to the socket are serialised by the semaphore (direct writer) or by the single flusher
-  goroutine (coalescer); the model therefore has ONE atomic action per socket write (`batch`), with the
-  environment choosing how many bytes the socket accepted.
+  The transport is NOT assumed to take a Write atomically: one socket `Write` is the action sequence
+  `enter w ; piece w k₁ ; … ; piece w kₙ ; endWrite w ok`, each `piece` appending bytes of the frame of `w` at
+  the END of the physical wire, with arbitrary other actions in between. What keeps frames whole is the
+  MECHANISM of the two writers, which is part of the machine:
+    * direct writer   : the one-slot semaphore — `enter w` needs `owner = none`, `endWrite` releases it;
+    * coalescing writer: the single flusher goroutine — only it enters the socket, one buffer of the
+                          flush at a time (`owner` = the buffer it is writing, `todo` = the buffers left).
+  `Cfg.serialised = false` switches the semaphore off; it exists only for the necessity counterexample
+  (`C07_cex_without_semaphore`): every theorem requires `serialised = true`.
 -/
 namespace Writer
 
@@ -21,80 +27,192 @@ def Spec.attrib : List Nat → Nat → Nat → List (Nat × Bool)
   | [], _, _ => []
   | l :: ls, n, pre => (if pre + l ≤ n then (l, true) else (n - pre, false)) :: Spec.attrib ls n (pre + l)
 
-/-- one piece of one frame on the wire -/
-structure Chunk where
-  id : Nat      -- writer (= request) the bytes belong to
-  len : Nat     -- length of its whole frame
-  n : Nat       -- bytes of it that reached the wire
+/-! ### the physical wire -/
+
+/-- `n > 0` bytes of the frame of request `id`, starting at byte `off` of that frame, as they reached the
+    transport. The wire is the list of pieces in arrival order. -/
+structure Piece where
+  id : Nat
+  off : Nat
+  n : Nat
 deriving DecidableEq, Repr
+
+/-- a maximal run of consecutive pieces that continue one another: bytes `start .. start+n` of frame `id` -/
+structure Chunk where
+  id : Nat
+  start : Nat
+  n : Nat
+deriving DecidableEq, Repr
+
+/-- append one piece to the chunk list (newest chunk first): it extends the newest chunk iff it is the next
+    bytes of the same frame, otherwise it starts a new chunk -/
+def addPiece : List Chunk → Piece → List Chunk
+  | [], p => [⟨p.id, p.off, p.n⟩]
+  | c :: cs, p =>
+    if c.id = p.id ∧ c.start + c.n = p.off then ⟨c.id, c.start, c.n + p.n⟩ :: cs
+    else ⟨p.id, p.off, p.n⟩ :: c :: cs
+
+/-- the wire as maximal contiguous runs, NEWEST FIRST -/
+def glue (wire : List Piece) : List Chunk := wire.foldl addPiece []
+
+/-- byte-level reading: byte `i` of frame `id` -/
+def Piece.bytes (p : Piece) : List (Nat × Nat) := (List.range p.n).map fun i => (p.id, p.off + i)
+def Chunk.bytes (c : Chunk) : List (Nat × Nat) := (List.range c.n).map fun i => (c.id, c.start + i)
+
+/-! ### the machine -/
 
 inductive Pc where
   | idle
-  | queued                       -- waiting for the semaphore / enqueued with the flusher
-  | cancelled                    -- ctx ended before writing began: (0, ctx.Err())
-  | wrote (n : Nat) (ok : Bool)  -- writeContext is about to return (n, err)
-  | failing                      -- exec took the `closeWithError(err)` branch, not yet executed
-  | done (ok : Bool)
+  | waiting                      -- in writeContext's first select (semaphore / writeCh / ctx.Done / quit)
+  | queued                       -- coalescer: handed to the flusher, waiting for the result
+  | inWrite (off : Nat)          -- its buffer is inside the socket Write; `off` bytes of it are on the wire
+  | cancelled                    -- ctx ended before writing began: writeContext returns (0, ctx.Err())
+  | wrote (n : Nat) (ok : Bool)  -- writeContext is about to return (n, err), ok = (err == nil)
+  | failing (n : Nat)            -- exec took the `closeWithError(err)` branch, not yet executed
+  | closer (n : Nat)             -- inside closeWithError as the FIRST closer (c.closed set, socket not closed yet)
+  | done (n : Nat) (ok : Bool)
 deriving DecidableEq, Repr
 
+/-- bytes of the writer's frame that are on the wire, as a function of its control state -/
+def Pc.sent : Pc → Nat
+  | .inWrite off => off
+  | .wrote n _ => n
+  | .failing n => n
+  | .closer n => n
+  | .done n _ => n
+  | _ => 0
+
+structure Cfg where
+  lens : Nat → Nat          -- frame length of each writer (= request)
+  coalesce : Bool           -- which of the two writers the connection uses
+  serialised : Bool := true -- the semaphore / single-flusher discipline (false: only for the necessity counterexample)
+
 structure St where
-  wire : List Chunk
+  wire : List Piece
   pc : Nat → Pc
-  closed : Bool
+  owner : Option Nat   -- semaphore holder / the buffer the flusher is writing
+  queue : List Nat     -- coalescer: enqueued for the next flush
+  todo : List Nat      -- coalescer: buffers of the flush in progress whose Write has not begun
+  flushing : Bool
+  closing : Bool       -- c.closed: some caller has begun closeWithError (later callers return at once)
+  closed : Bool        -- the socket is closed (closeWithError's tail): nothing is accepted any more
 
 inductive Act where
-  | submit (w : Nat) (ctxDoneFirst : Bool)
-  | write (w : Nat) (k : Nat)   -- one socket write of the frame of `w`; the socket accepted `k` bytes
-  | ret (w : Nat)               -- writeContext returns to exec
-  | close (w : Nat)             -- exec calls closeWithError
+  | submit (w : Nat)             -- exec calls writeContext
+  | cancel (w : Nat)             -- ctx.Done() wins the first select
+  | enqueue (w : Nat)            -- coalescer: the flusher receives the request
+  | tick                         -- coalescer: flush timer fires, the flusher takes the batch
+  | enter (w : Nat)              -- socket Write of the frame of `w` begins
+  | piece (w : Nat) (k : Nat)    -- the transport takes the next `k` bytes of it
+  | endWrite (w : Nat) (ok : Bool) -- the socket Write returns (bytes so far, nil / an error of any kind)
+  | quit (w : Nat)               -- connection closed: a waiting / enqueued writer gets (0, closed)
+  | ret (w : Nat)                -- writeContext returns to exec
+  | close (w : Nat)              -- exec calls closeWithError: the first caller becomes the closer, later ones return
+  | closeFinish (w : Nat)        -- the closer has told the outstanding calls and closes the socket
+  | shutdown                     -- Conn.Close() from outside (closeWithError(nil): no calls to tell)
 deriving Repr
 
-def init : St := { wire := [], pc := fun _ => .idle, closed := false }
+def init : St :=
+  { wire := [], pc := fun _ => .idle, owner := none, queue := [], todo := [], flushing := false, closing := false, closed := false }
 
 def setPc (pc : Nat → Pc) (w : Nat) (v : Pc) : Nat → Pc := fun x => if x = w then v else pc x
+def setMany (pc : Nat → Pc) (ws : List Nat) (v : Pc) : Nat → Pc := fun x => if x ∈ ws then v else pc x
 
-/-- `step` returns `none` when the action is not enabled in the state. `lens w` = frame length of writer `w`.
-    A coalesced flush is a sequence of `write` actions (net.Buffers.WriteTo issues one Write per buffer on
-    a non-TCP conn; on TCP one writev) whose per-frame results are what `attrib` reports (theorem
-    `attrib_eq_spec`). After the connection is closed the socket accepts nothing. -/
-def step (lens : Nat → Nat) (s : St) : Act → Option St
-  | .submit w ctxDoneFirst =>
-      if s.pc w = .idle then
-        some { s with pc := setPc s.pc w (if ctxDoneFirst then .cancelled else .queued) }
+/-- `step` returns `none` when the action is not enabled in the state. -/
+def step (cfg : Cfg) (s : St) : Act → Option St
+  | .submit w =>
+      if s.pc w = .idle then some { s with pc := setPc s.pc w .waiting } else none
+  | .cancel w =>
+      if s.pc w = .waiting then some { s with pc := setPc s.pc w .cancelled } else none
+  | .enqueue w =>
+      if cfg.coalesce = true ∧ s.pc w = .waiting ∧ s.flushing = false then
+        some { s with pc := setPc s.pc w .queued, queue := s.queue ++ [w] }
       else none
-  | .write w k =>
-      if s.pc w = .queued ∧ k ≤ lens w ∧ (s.closed = true → k = 0) then
-        some { s with
-          wire := if k = 0 then s.wire else s.wire ++ [⟨w, lens w, k⟩],
-          pc := setPc s.pc w (.wrote k (decide (k = lens w))) }
+  | .tick =>
+      if cfg.coalesce = true ∧ s.flushing = false ∧ s.queue ≠ [] then
+        some { s with flushing := true, todo := s.queue, queue := [] }
+      else none
+  | .enter w =>
+      if (cfg.serialised = true → s.owner = none) ∧
+         ((cfg.coalesce = false ∧ s.pc w = .waiting) ∨
+          (cfg.coalesce = true ∧ s.pc w = .queued ∧ s.flushing = true ∧ w ∈ s.todo)) then
+        some { s with pc := setPc s.pc w (.inWrite 0), owner := some w, todo := s.todo.filter (· ≠ w) }
+      else none
+  | .piece w k =>
+      match s.pc w with
+      | .inWrite off =>
+        if 0 < k ∧ off + k ≤ cfg.lens w ∧ s.closed = false then
+          some { s with wire := s.wire ++ [⟨w, off, k⟩], pc := setPc s.pc w (.inWrite (off + k)) }
+        else none
+      | _ => none
+  | .endWrite w ok =>
+      match s.pc w with
+      | .inWrite off =>
+        if ok = true → off = cfg.lens w then
+          let failAll := cfg.coalesce && !ok
+          some { s with
+            pc := setPc (if failAll then setMany s.pc s.todo (.wrote 0 false) else s.pc) w (.wrote off ok),
+            owner := none,
+            todo := if failAll then [] else s.todo,
+            flushing := if cfg.coalesce && (!ok || s.todo.isEmpty) then false else s.flushing }
+        else none
+      | _ => none
+  | .quit w =>
+      if s.closed = true ∧ (s.pc w = .waiting ∨ (s.pc w = .queued ∧ w ∉ s.todo)) then
+        some { s with pc := setPc s.pc w (.wrote 0 false), queue := s.queue.filter (· ≠ w) }
       else none
   | .ret w =>
       match s.pc w with
-      | .wrote _ true => some { s with pc := setPc s.pc w (.done true) }
-      | .wrote _ false => some { s with pc := setPc s.pc w .failing }
+      | .cancelled => some { s with pc := setPc s.pc w (.done 0 false) }
+      | .wrote n true => some { s with pc := setPc s.pc w (.done n true) }
+      | .wrote n false => some { s with pc := setPc s.pc w (.failing n) }
       | _ => none
   | .close w =>
-      if s.pc w = .failing then some { s with pc := setPc s.pc w (.done false), closed := true } else none
+      match s.pc w with
+      | .failing n => some { s with pc := setPc s.pc w (if s.closing then .done n false else .closer n), closing := true }
+      | _ => none
+  | .closeFinish w =>
+      match s.pc w with
+      | .closer n => some { s with pc := setPc s.pc w (.done n false), closed := true }
+      | _ => none
+  | .shutdown => some { s with closing := true, closed := true }
 
-def run (lens : Nat → Nat) : St → List Act → Option St
+def run (cfg : Cfg) : St → List Act → Option St
   | s, [] => some s
-  | s, a :: as => match step lens s a with
-    | some s' => run lens s' as
+  | s, a :: as => match step cfg s a with
+    | some s' => run cfg s' as
     | none => none
 
-/-! ### monitor used on real byte streams (driver) -/
+/-! ### checks used on real byte streams (driver) and in the property statements -/
 
-/-- A wire (as a list of chunks in byte order) is *well formed* when every chunk is at most its frame,
-    no request appears twice, and only the last chunk may be incomplete. -/
-def wholeFrames (wire : List Chunk) : Bool :=
-  (wire.all fun c => c.n ≤ c.len) && decide (wire.map (·.id)).Nodup &&
-  (wire.dropLast.all fun c => c.n = c.len)
+/-- every chunk is a frame prefix (starts at byte 0, within the frame) and no frame appears twice: the byte
+    stream is not interleaved. -/
+def framed (lens : Nat → Nat) (cs : List Chunk) : Bool :=
+  (cs.all fun c => c.start == 0 && decide (0 < c.n) && decide (c.n ≤ lens c.id)) && decide (cs.map (·.id)).Nodup
+
+/-- the monitor's online check of a byte stream: pieces are appended one at a time and after every piece the
+    stream so far must be `framed`. `none` = rejected. (`Proofs/C07.lean`: it accepts exactly when every
+    prefix of the wire is framed, and it accepts the wire of every reachable state.) -/
+def scanFrom (lens : Nat → Nat) : List Chunk → List Piece → Option (List Chunk)
+  | cs, [] => some cs
+  | cs, p :: ps => if framed lens (addPiece cs p) then scanFrom lens (addPiece cs p) ps else none
+
+def scan (lens : Nat → Nat) (wire : List Piece) : Option (List Chunk) := scanFrom lens [] wire
+
+/-- "after a partial write nothing": only the NEWEST chunk may be incomplete -/
+def onlyLastTorn (lens : Nat → Nat) (cs : List Chunk) : Bool :=
+  cs.tail.all fun c => c.n == lens c.id
 
 end Writer
 
 namespace C07
-/-- the schedule of known finding KF-C07-1 (also used by `Proofs/C07.lean`) -/
-def cexScheduleD : List Writer.Act :=
-  [.submit 1 false, .submit 2 false, .write 1 4, .ret 1, .write 2 10]
-end C07
+open Writer
+/-- the schedule of known finding KF-C07-1 (also used by `Proofs/C07.lean`): writer 1's Write is cut after 4 of
+    10 bytes, the semaphore is released, writer 2 writes its whole frame before writer 1 reaches closeWithError -/
+def cexScheduleD : List Act :=
+  [.submit 1, .submit 2, .enter 1, .piece 1 4, .endWrite 1 false, .enter 2, .ret 1, .close 1, .piece 2 10, .endWrite 2 true]
 
+/-- without the semaphore: writer 2 enters the socket while writer 1 is in the middle of its frame -/
+def cexScheduleNoSem : List Act :=
+  [.submit 1, .submit 2, .enter 1, .piece 1 4, .enter 2, .piece 2 10, .piece 1 6, .endWrite 1 true, .endWrite 2 true]
+end C07
